@@ -519,11 +519,21 @@ class Open(State):
 class WaitReturns(State):
     def run(self) -> None:
         self.set_wait_returns_state(set_name=True)
+
+        #: The election itself is not implemented, but the connection must
+        #: not be trapped in here once the peer is gone or a stop is requested.
+        if (self.is_set_release_signal_from_peer() or 
+                self.is_set_stop_request_from_local()):
+            self.set_closed_state()
     
 
 class WaitConnAckElect(State):
     def run(self) -> None:
         self.set_wait_conn_ack_elect_state(set_name=True)
+
+        if (self.is_set_release_signal_from_peer() or 
+                self.is_set_stop_request_from_local()):
+            self.set_closed_state()
 
 
 class Closing(State):
